@@ -19,6 +19,7 @@ def exp2Accept (E rep : Int) (want : Nat) (v : Int) : Bool :=
 /-- known-defect classes (functions of format and input only) -/
 def exp2Class (f : Exp2.Fmt) (rep : Int) (want : Nat) : String :=
   if !f.signed && f.bits ≥ 32 && f.exp < 0 then "C20.exp2_unsigned_rep_sign_compare"
+  else if f.exp > 0 && !(f.rep.inRange (rep * 2^f.exp.toNat)) then "C20.exp2_positive_exponent_floor_wraps"
   else
     -- what the code did with the coefficients of the header as first verified (derived inside Lean from the literals)
     match Exp2.exp2With (Exp2.derivedCoeffs f.bits) f rep with
@@ -32,6 +33,7 @@ def checkC20 (toks : List String) (res : String) : Option Verdict :=
     let f : Exp2.Fmt := ⟨t.bits, t.signed, e⟩
     let m := showExp2 (Exp2.exp2 f r)
     let fmtS := ty ++ "/" ++ toString e
+    if t.bits > 32 then some { model := m, spec := none, branch := "exp2/" ++ fmtS ++ "/beyond-32-bit", nontrivial := false } else
     match Spec.Exp2.ref? t.bits e r with
     | some want =>
       if (want : Int) ≤ t.max then
